@@ -50,6 +50,17 @@ def _get_column_defs(fn, cfg, col_param):
 
 
 # ------------------------------------------------------------------------------------------ R1
+def _reads_of(fn, rd, cfg, attr, defs):
+  """[(node, Call)] for calls <x>.<attr>(...) whose receiver is a local bound at one of `defs`."""
+  out = []
+  for (n, c, nm) in fn.calls():
+    if isinstance(c.func, ast.Attribute) and c.func.attr == attr and \
+        isinstance(c.func.value, ast.Name) and \
+        rd.reaching(c.func.value.id, n.id) and rd.reaching(c.func.value.id, n.id) <= set(defs):
+      out.append((n, c))
+  return out
+
+
 def r1_user_level(run, w):
   R1 = run.rule("C23-R1", "doModifyColumn: capture old values before the doc action, convert the "
                 "captured value with the new column, set + record every differing row, hand the "
@@ -57,10 +68,13 @@ def r1_user_level(run, w):
   fn = w.fn("useractions.UserActions.doModifyColumn")
   cfg = fn.cfg
   du = DefUse(fn)
+  rd = H.ReachDefs(fn, du)
+  keep = set()
+  CF = lambda e: H.canon(fn, e, pure_only=False, stop=keep)
   names = w.action_types()
   ps = fn.fi.params()
   p_table, p_col, p_info = ps[1], ps[2], ps[3]
-  gws = [(n, E.action_ctor(c.args[0], names)) for (n, c) in H.gateway_sites(fn)]
+  gws = [(n, E.action_ctor(H.deref(fn, c.args[0]), names)) for (n, c) in H.gateway_sites(fn)]
   gws = [(n, r[1]) for (n, r) in gws if r and r[0] == "ModifyColumn"]
   if len(gws) != 1:
     raise AnalysisError("doModifyColumn: expected exactly one gateway(ModifyColumn) call")
@@ -72,46 +86,63 @@ def r1_user_level(run, w):
   if len(olds) != 1 or len(news) != 1:
     raise AnalysisError("doModifyColumn: old/new column objects not recognised")
   (on, oldv), (nn, newv) = olds[0], news[0]
+  keep |= {oldv, newv}
   run.ob(R1, fn.qualname, "%s = table.get_column(col_id) ... gateway(ModifyColumn) ... %s = "
          "table.get_column(col_id)" % (oldv, newv), "the old column object is taken before the "
          "schema change and the new one after it", cfg.dominated_by(g.id, {on.id}) and
-         cfg.dominated_by(nn.id, {g.id}) and oldv != newv, fi=fn.fi)
-  # capture: <cap> = {r: old.raw_get(r) for r in <rows>}
+         cfg.dominated_by(nn.id, {g.id}), fi=fn.fi)
+  # capture: <cap> = {r: old.raw_get(r) for r in <rows>} (or the same written as a loop)
   caps = []
-  for n in cfg.nodes:
+  for (n, read) in _reads_of(fn, rd, cfg, "raw_get", {on.id}):
     v = _name_of_assign(n)
-    if v and isinstance(n.stmt.value, (ast.DictComp, ast.ListComp)):
-      comp = n.stmt.value
-      reads = [c for c in calls_in(comp) if isinstance(c.func, ast.Attribute) and
-               c.func.attr == "raw_get" and text(c.func.value) == oldv]
-      if reads and len(comp.generators) == 1:
-        caps.append((n, v, comp, reads[0]))
+    comp = None
+    if v and isinstance(n.stmt.value, (ast.DictComp, ast.ListComp)) and \
+        any(x is read for x in ast.walk(n.stmt.value)):
+      comp, capdefs, at = n.stmt.value, {n.id}, n.id
+    else:
+      for nm_, ms in du.muts.items():
+        if n.id in ms:
+          comp = H.loop_as_comprehension(fn, du, rd, nm_, g.id)
+          if comp is not None:
+            v, capdefs, at = nm_, rd.reaching(nm_, g.id), comp._loop_node
+    if comp is not None and len(comp.generators) == 1 and \
+        not any(x[1] == v and x[0].id == n.id for x in caps):
+      # (a second read at the same node, e.g. in a filter, belongs to the same capture)
+      val = comp.value if isinstance(comp, ast.DictComp) else comp.elt
+      first_read = [x for x in ast.walk(val) if isinstance(x, ast.Call) and
+                    isinstance(x.func, ast.Attribute) and x.func.attr == "raw_get"]
+      caps.append((n, v, comp, first_read[0] if first_read else read, capdefs, at))
   if len(caps) != 1:
     raise AnalysisError("doModifyColumn: capture of the old values not recognised")
-  cn, capv, comp, read = caps[0]
+  cn, capv, comp, read, capdefs, cap_at = caps[0]
+  keep.add(capv)
   gen = comp.generators[0]
+  same_read = lambda x: x is read or text(x) == text(read)
   ok = isinstance(comp, ast.DictComp) and not gen.ifs and text(comp.key) == text(gen.target) and \
-      comp.value is read and [text(a) for a in read.args] == [text(gen.target)] and \
+      same_read(comp.value) and [text(a) for a in read.args] == [text(gen.target)] and \
       isinstance(gen.iter, ast.Name)
-  run.ob(R1, fn.qualname, short(cn.stmt), "the raw old value of every row is captured, keyed by "
+  run.ob(R1, fn.qualname, short(comp), "the raw old value of every row is captured, keyed by "
          "row id, nothing filtered", ok, fi=fn.fi, node=cn.stmt)
   rowsv = gen.iter.id if isinstance(gen.iter, ast.Name) else None
-  ok = cfg.dominated_by(g.id, {cn.id}) and cn.id not in after_g and \
-      len(E.local_defs(fn.node, capv)) == 1 and not (du.muts.get(capv, set()))
+  cap_writers = du.writers(capv)
+  ok = all(cfg.dominated_by(g.id, {d}) for d in capdefs) and not (cap_writers & after_g) and \
+      cn.id not in after_g
   run.ob(R1, fn.qualname, "%s captured before gateway(ModifyColumn), never rewritten" % capv,
          "the values converted are the ones the column held before its type changed", ok,
          fi=fn.fi, node=cn.stmt)
-  rd = H.single_def(fn, rowsv) if rowsv else None
-  rnodes = {n.id for n in cfg.nodes if _name_of_assign(n) == rowsv}
-  ok = rd is not None and isinstance(H.strip_wrappers(rd), ast.Attribute) and \
-      H.strip_wrappers(rd).attr == "row_ids" and \
-      fn.type_of(H.strip_wrappers(rd).value) == T.TABLE and \
-      all(r not in after_g for r in rnodes)
+  rows_defs = rd.reaching(rowsv, cap_at) if rowsv else set()
+  rvals = [H.def_value(cfg, d) for d in rows_defs]
+  def all_rows(v):
+    v = H.strip_wrappers(v) if v is not None else None
+    return isinstance(v, ast.Attribute) and v.attr == "row_ids" and fn.type_of(v.value) == T.TABLE
+  ok = bool(rvals) and all(all_rows(v) for v in rvals) and \
+      all(r not in after_g for r in rows_defs if r != H.ReachDefs.ENTRY) and \
+      not (du.muts.get(rowsv, set()))
   run.ob(R1, fn.qualname, "%s = list(table.row_ids)" % rowsv, "the rows considered are all rows "
          "of the table, listed before the change", ok, fi=fn.fi)
   # no state read of the old column after the doc action
   late = [c for (n, c, nm) in fn.calls() if n.id in after_g and isinstance(c.func, ast.Attribute)
-          and text(c.func.value) == oldv]
+          and isinstance(c.func.value, ast.Name) and on.id in rd.reaching(c.func.value.id, n.id)]
   run.ob(R1, fn.qualname, "%s not used after gateway(ModifyColumn)" % oldv,
          "the destroyed column object is not consulted again", not late, fi=fn.fi,
          node=late[0] if late else None)
@@ -126,101 +157,102 @@ def r1_user_level(run, w):
   run.ob(R1, fn.qualname, "for %s in %s" % (rowvar, text(lp.stmt.iter)),
          "the conversion loop covers the same rows the capture did",
          isinstance(lp.stmt.iter, ast.Name) and lp.stmt.iter.id == rowsv and
+         rd.reaching(rowsv, lp.id) == rows_defs and
          cfg.postdominated_by(g.id, {lp.id}), fi=fn.fi, node=lp.stmt)
-  convs = [c for c in calls_in(lp.stmt.body) if isinstance(c.func, ast.Attribute) and
-           c.func.attr == "convert"]
   body_stmts = H.stmts_under(lp.stmt.body)
-  def local_in_loop(name):
-    vals = [s.value for s in body_stmts if isinstance(s, ast.Assign) and len(s.targets) == 1 and
-            isinstance(s.targets[0], ast.Name) and s.targets[0].id == name]
-    alld = E.local_defs(fn.node, name)
-    return vals[0] if len(vals) == 1 and len(alld) == 1 else None
-  ok = len(convs) == 1 and text(convs[0].func.value) == newv and len(convs[0].args) == 1
-  origv = newvalv = None
+  body = H.nodes_of_stmts(cfg, body_stmts)
+  convs = [(n, c) for (n, c, nm) in fn.calls() if n.id in body and
+           isinstance(c.func, ast.Attribute) and c.func.attr == "convert"]
+  ok = len(convs) == 1
+  conv = convs[0][1] if convs else None
   if ok:
-    a = convs[0].args[0]
-    src = a
-    if isinstance(a, ast.Name):
-      origv = a.id
-      src = local_in_loop(a.id)
-    ok = isinstance(src, ast.Subscript) and text(src.value) == capv and text(src.slice) == rowvar
-    st = H.stmt_of(fn.node, convs[0])
-    if isinstance(st, ast.Assign) and isinstance(st.targets[0], ast.Name) and \
-        st.value is convs[0]:
-      newvalv = st.targets[0].id
-  run.ob(R1, fn.qualname, short(convs[0]) if convs else "new_column.convert(...)",
+    recv = conv.func.value
+    ok = isinstance(recv, ast.Name) and rd.reaching(recv.id, convs[0][0].id) == {nn.id} and \
+        len(conv.args) == 1 and not conv.keywords
+  src = None
+  if ok:
+    src = H.expand(fn, conv.args[0], pure_only=False, stop=keep)
+    ok = isinstance(src, ast.Subscript) and isinstance(src.value, ast.Name) and \
+        src.value.id == capv and text(src.slice) == rowvar
+  run.ob(R1, fn.qualname, short(conv) if conv is not None else "new_column.convert(...)",
          "each new value is the new column's conversion of that row's captured old value", ok,
-         fi=fn.fi, node=convs[0] if convs else None)
+         fi=fn.fi, node=conv)
   if not ok:
     return      # the violation above is the report; the rest of the rule needs this shape
-  if not (origv and newvalv):
-    raise AnalysisError("doModifyColumn: conversion result is not bound to simple locals")
-  # differing rows
-  ifs = [s for s in lp.stmt.body if isinstance(s, ast.If)]
-  tests_ok = False
-  gi = None
-  for s in ifs:
-    t = s.test
-    if isinstance(t, ast.UnaryOp) and isinstance(t.op, ast.Not) and isinstance(t.operand, ast.Call) \
-        and dotted(t.operand.func) == "strict_equal" and \
-        sorted(text(a) for a in t.operand.args) == sorted([origv, newvalv]) and not s.orelse:
-      tests_ok = True
-      gi = s
-  run.ob(R1, fn.qualname, "if not strict_equal(%s, %s):" % (origv, newvalv),
+  c_new, c_old = CF(conv), CF(conv.args[0])
+  # differing rows: with strict_equal(old, new) false, no way round the loop avoids the set and
+  # the record (any other test on the way leaves both branches open)
+  def differs(e):
+    if isinstance(e, ast.Call) and dotted(e.func) == "strict_equal" and len(e.args) == 2 and \
+        not e.keywords and {CF(a) for a in e.args} == {c_new, c_old}:
+      return False
+    return None
+  tested = any(differs(x) is False for n in cfg.nodes if n.id in body and n.kind == "if"
+               for x in ast.walk(n.stmt.test))
+  run.ob(R1, fn.qualname, "if not strict_equal(<old value>, <converted value>):",
          "a row counts as changed whenever the converted value is not strictly equal (type "
-         "included) to the old one", tests_ok, fi=fn.fi)
-  if gi is None:
+         "included) to the old one", tested, fi=fn.fi)
+  if not tested:
     return
-  gfirst = H.nodes_of_stmts(cfg, gi.body[:1])
-  sets = {n.id for (n, c, nm) in fn.calls() if isinstance(c.func, ast.Attribute) and
-          c.func.attr == "set" and text(c.func.value) == newv and
-          [text(a) for a in c.args] == [rowvar, newvalv]}
+  first = H.nodes_of_stmts(cfg, lp.stmt.body[:1])
+  stops = {lp.id, cfg.exit.id}
+  sets = set()
+  for (n, c) in _reads_of(fn, rd, cfg, "set", {nn.id}):
+    if n.id in body and len(c.args) == 2 and not c.keywords and \
+        [CF(a) for a in c.args] == [rowvar, c_new]:
+      sets.add(n.id)
   recs = []
   for (n, c, nm) in fn.calls():
-    if isinstance(c.func, ast.Attribute) and c.func.attr == "append" and len(c.args) == 1 and \
-        isinstance(c.func.value, ast.Name) and isinstance(c.args[0], ast.Tuple) and \
-        len(c.args[0].elts) == 3 and n.id in H.nodes_of_stmts(cfg, H.stmts_under(gi.body)):
-      e = c.args[0].elts
-      after_ok = text(e[2]) in (newvalv, "%s.raw_get(%s)" % (newv, rowvar))
-      if text(e[0]) == rowvar and text(e[1]) == origv and after_ok:
-        recs.append((n, c.func.value.id))
-  ok_set = bool(sets) and lp.id not in cfg.reach(gfirst, removed=sets)
-  run.ob(R1, fn.qualname, "%s.set(%s, %s)" % (newv, rowvar, newvalv),
+    if n.id in body and isinstance(c.func, ast.Attribute) and c.func.attr == "append" and \
+        len(c.args) == 1 and isinstance(c.func.value, ast.Name):
+      t = H.deref(fn, c.args[0])
+      if isinstance(t, ast.Tuple) and len(t.elts) == 3:
+        e = [CF(x) for x in t.elts]
+        readback = isinstance(t.elts[2], ast.Call) and isinstance(t.elts[2].func, ast.Attribute) \
+            and t.elts[2].func.attr == "raw_get" and isinstance(t.elts[2].func.value, ast.Name) and \
+            rd.reaching(t.elts[2].func.value.id, n.id) == {nn.id} and \
+            [CF(x) for x in t.elts[2].args] == [rowvar]
+        if e[0] == rowvar and e[1] == c_old and (e[2] == c_new or readback):
+          recs.append((n, c.func.value.id, readback))
+  ok_set = bool(sets) and not (H.reach_assuming(cfg, first, differs, removed=sets) & stops)
+  run.ob(R1, fn.qualname, "%s.set(%s, <converted value>)" % (newv, rowvar),
          "every differing row gets its converted value stored in the new column", ok_set, fi=fn.fi)
-  ok_rec = len(recs) == 1 and lp.id not in cfg.reach(gfirst, removed={recs[0][0].id})
-  run.ob(R1, fn.qualname, "changes.append((%s, %s, <stored new value>))" % (rowvar, origv),
+  ok_rec = len(recs) == 1 and \
+      not (H.reach_assuming(cfg, first, differs, removed={recs[0][0].id}) & stops)
+  run.ob(R1, fn.qualname, "changes.append((%s, <old value>, <stored new value>))" % rowvar,
          "every differing row is recorded with its old and its new stored value", ok_rec,
          fi=fn.fi)
   if not recs:
     return
   chv = recs[0][1]
-  if sets and recs:
-    sn = next(iter(sets))
-    if text(recs[0][0].stmt.value.args[0].elts[2]) != newvalv:
-      # the stored value is read back: that must happen after the set
-      run.ob(R1, fn.qualname, "set before the read-back of the stored value",
-             "the recorded new value is what the column holds after the write",
-             recs[0][0].id in cfg.reach_after({sn}) and cfg.dominated_by(recs[0][0].id, sets),
-             fi=fn.fi)
-  cdef = H.single_def(fn, chv)
-  cdn = {n.id for n in cfg.nodes if _name_of_assign(n) == chv}
-  ok = isinstance(cdef, ast.List) and not cdef.elts and all(cfg.dominated_by(lp.id, {c}) for c in cdn) \
-      and not (cdn & set(H.nodes_of_stmts(cfg, body_stmts)))
+  if sets and recs[0][2]:
+    # the stored value is read back: that must happen after the set
+    run.ob(R1, fn.qualname, "set before the read-back of the stored value",
+           "the recorded new value is what the column holds after the write",
+           cfg.dominated_by(recs[0][0].id, sets), fi=fn.fi)
+  cdn = rd.reaching(chv, recs[0][0].id)
+  ok = bool(cdn) and H.ReachDefs.ENTRY not in cdn and \
+      all(H._empty_container(H.def_value(cfg, c)) == "list" and cfg.dominated_by(lp.id, {c})
+          for c in cdn) and not (set(cdn) & body) and \
+      not (du.muts.get(chv, set()) - {recs[0][0].id})
   run.ob(R1, fn.qualname, "%s = [] before the loop" % chv, "the change list starts empty once",
          ok, fi=fn.fi)
   # add_changes(table_id, col_id, changes) whenever changes is non-empty
   adds = [(n, c) for (n, c, nm) in fn.calls() if E.is_summary_add_changes(c, nm, fn)]
   ok = False
   an = None
+  nonempty = lambda e: True if isinstance(e, ast.Name) and e.id == chv else None
   if len(adds) == 1:
     an, ac = adds[0]
-    chain = H.guards_of(fn.node, an.stmt)
-    ok = [text(a) for a in ac.args] == [p_table, p_col, chv] and \
-        len(chain) <= 1 and all(isinstance(s, ast.If) and f == "body" and text(s.test) == chv
-                                for (s, f) in chain)
-    anchor = H.nodes_of_stmts(cfg, [chain[0][0]]) if chain else {an.id}
-    ok = ok and cfg.postdominated_by(lp.id, anchor) and an.id not in \
-        H.nodes_of_stmts(cfg, body_stmts)
+    afi = w.repo.func("action_summary.ActionSummary.add_changes")
+    try:
+      aargs = [H.arg_of(ac, afi, p) for p in afi.params()[1:4]]
+    except AnalysisError:
+      aargs = [None]
+    ok = all(a is not None for a in aargs) and \
+        [H.canon(fn, a) for a in aargs] == [p_table, p_col, chv] and \
+        rd.reaching(chv, an.id) == cdn and an.id not in body and \
+        cfg.exit.id not in H.reach_assuming(cfg, {lp.id}, nonempty, removed={an.id})
   run.ob(R1, fn.qualname, "if %s: summary.add_changes(table_id, col_id, %s)" % (chv, chv),
          "the recorded changes reach the action summary (from which stored and undo actions are "
          "made) whenever there are any, on every normal path after the loop", ok, fi=fn.fi)
@@ -230,24 +262,25 @@ def r1_user_level(run, w):
   ok = False
   if len(fl) == 1 and an is not None:
     fnode, fc = fl[0]
-    chain = [(s, f) for (s, f) in H.guards_of(fn.node, fnode.stmt) if not isinstance(s, ast.Try)]
-    tf = None
-    if len(chain) == 1 and isinstance(chain[0][0], ast.If) and chain[0][1] == "body" and \
-        isinstance(chain[0][0].test, ast.UnaryOp) and isinstance(chain[0][0].test.op, ast.Not) and \
-        isinstance(chain[0][0].test.operand, ast.Name):
-      tf = chain[0][0].test.operand.id
-    d = H.single_def(fn, tf) if tf else None
-    d = H.strip_bool(d) if d is not None else None
-    is_to_formula = isinstance(d, ast.Call) and isinstance(d.func, ast.Attribute) and \
-        d.func.attr == "get" and text(d.func.value) == p_info and d.args and \
-        H.const_value(d.args[0]) == (True, "isFormula")
-    dn = {n.id for n in cfg.nodes if _name_of_assign(n) == tf}
-    early = bool(dn) and all(H.unrebound_at(fn, du, p_info, x) for x in dn)
-    ok = is_to_formula and early and [text(a) for a in fc.args] == [p_table, p_col] and \
-        fnode.id in cfg.reach_after({an.id}) and an.id not in cfg.reach_after({fnode.id})
-    if ok:
-      gn = H.nodes_of_stmts(cfg, [chain[0][0]])
-      ok = cfg.postdominated_by(lp.id, gn)
+    def is_to_formula_def(d):
+      d = H.strip_bool(d) if d is not None else None
+      return isinstance(d, ast.Call) and isinstance(d.func, ast.Attribute) and \
+          d.func.attr == "get" and H.canon(fn, d.func.value) == p_info and d.args and \
+          H.const_value(d.args[0]) == (True, "isFormula")
+    tfs = {nm_ for nm_ in du.defs if du.values_of(nm_) and len(du.values_of(nm_)) == 1 and
+           is_to_formula_def(du.values_of(nm_)[0])}
+    early = all(H.unrebound_at(fn, du, p_info, x) for tf in tfs for x in du.defs[tf])
+    data_col = lambda e: False if (isinstance(e, ast.Name) and e.id in tfs) or \
+        is_to_formula_def(e) else None
+    ffi = w.repo.func("action_obj.ActionGroup.flush_calc_changes_for_column")
+    try:
+      fargs = [H.arg_of(fc, ffi, p) for p in ffi.params()[1:3]]
+    except AnalysisError:
+      fargs = [None]
+    ok = early and all(a is not None for a in fargs) and \
+        [H.canon(fn, a) for a in fargs] == [p_table, p_col] and \
+        fnode.id in cfg.reach_after({an.id}) and an.id not in cfg.reach_after({fnode.id}) and \
+        cfg.exit.id not in H.reach_assuming(cfg, {lp.id}, data_col, removed={fnode.id})
   run.ob(R1, fn.qualname, "if not to_formula: out_actions.flush_calc_changes_for_column(table_id, "
          "col_id)", "when the column ends up a data column its recorded changes are turned into "
          "stored/undo actions now, after they were recorded, on every normal path", ok, fi=fn.fi)
@@ -280,25 +313,34 @@ def r2_doc_level(run, w):
          "get_column(col_id) after the last rebuild" % (oldv, newv),
          "the source of the copy is the column as it was, the destination the rebuilt column", ok,
          fi=fn.fi)
+  du = DefUse(fn)
+  rd = H.ReachDefs(fn, du)
   copies = []
-  for n in cfg.nodes:
-    if n.kind != "for":
-      continue
-    for c in calls_in(n.stmt.body):
-      if isinstance(c.func, ast.Attribute) and c.func.attr == "set" and \
-          text(c.func.value) == newv and len(c.args) == 2:
-        copies.append((n, c))
+  for (n, c) in _reads_of(fn, rd, cfg, "set", {nn.id}):
+    if len(c.args) == 2 and not c.keywords:
+      heads = H.loop_heads_around(fn, cfg, n.stmt)
+      copies.append((n, c, heads))
+  copies = [x for x in copies if len(x[2]) == 1]
   if len(copies) != 1:
     raise AnalysisError("DocActions.ModifyColumn: copy loop not recognised")
-  lp, sc = copies[0]
+  sn, sc, heads = copies[0]
+  lp = cfg.nodes[next(iter(heads))]
+  if lp.kind != "for":
+    raise AnalysisError("DocActions.ModifyColumn: copy loop is not a for loop")
   rv = text(lp.stmt.target)
-  it = lp.stmt.iter
+  it = H.strip_wrappers(H.deref(fn, lp.stmt.iter), ("list", "tuple", "sorted"))
   ok = isinstance(it, ast.Attribute) and it.attr == "row_ids" and fn.type_of(it.value) == T.TABLE
   run.ob(R2, fn.qualname, "for %s in %s" % (rv, text(it)), "the copy covers every row id of the "
          "table (no filter, no slice)", ok, fi=fn.fi, node=lp.stmt)
-  ok = text(sc.args[0]) == rv and text(sc.args[1]) == "%s.raw_get(%s)" % (oldv, rv) and \
-      isinstance(H.stmt_of(fn.node, sc), ast.Expr) and \
-      [s for (s, f) in H.guards_of(fn.node, H.stmt_of(fn.node, sc))] == [lp.stmt]
+  val = H.expand(fn, sc.args[1], pure_only=False, stop={oldv, newv})
+  from_old = isinstance(val, ast.Call) and isinstance(val.func, ast.Attribute) and \
+      val.func.attr == "raw_get" and isinstance(val.func.value, ast.Name) and \
+      rd.reaching(val.func.value.id, sn.id) == {on.id} and \
+      [H.canon(fn, a) for a in val.args] == [rv] and not val.keywords
+  # unconditionally: every way round the loop passes the set
+  first = H.nodes_of_stmts(cfg, lp.stmt.body[:1])
+  every = not (cfg.reach(first, removed={sn.id}) & {lp.id, cfg.exit.id})
+  ok = H.canon(fn, sc.args[0]) == rv and from_old and every
   run.ob(R2, fn.qualname, short(sc), "each row receives the old column's raw stored value for the "
          "same row (alt-text and errors included), unconditionally", ok, fi=fn.fi, node=sc)
   ok = all(cfg.postdominated_by(s, {lp.id}) for s in sw) and cfg.dominated_by(lp.id, {nn.id})
